@@ -88,7 +88,15 @@ def _basic(out, res, cfg, what, fault_free=True):
     for kind, msg in probs[:1]:
         out.violation(kind, "%s: %s" % (what, msg), sig=None, run=what, cfg=_cfg_str(cfg), layout=str(res.layout),
                       sched=res.sched_name)
+        out.trace = _trace(res)
     return not probs
+
+
+def _trace(res):
+    """Kernel event log of a run: 'step virtual-time kind task what' (y = yield point, b = blocks, w = woken,
+    fault, timer, deadlock, end)."""
+    return {"events": res.log, "events_total": res.kernel.nlog, "faults_fired": res.fired,
+            "blocked_at_end": res.blocked_at_end, "rescues": res.rescues}
 
 
 def _cfg_str(cfg):
@@ -166,6 +174,7 @@ def _enum_case(ch, out):
             out.violation("fault-hang", "enumeration %s: worker %s raised at %s (%s #%d): the call does not raise promptly: %s"
                           % (_cfg_str(cfg), tname, site, at, k, probs[0][1]), sig="exc", fault_kind="exc", site=site,
                           cfg=_cfg_str(cfg), layout=str(rf.layout), sched="canonical")
+            out.trace = _trace(rf)
             return out
         if rf.status == "returned":
             out.violation("fault-swallowed", "enumeration %s: worker %s raised at %s (%s #%d) but the call returned normally"
@@ -237,6 +246,7 @@ def case(ch):
                               "and a %s schedule (cores %s vs %s, fill %s): %d bkg and %d rms pixels differ"
                               % (r0.layout, sched["profile"], cfg["cores"], cores2 or cfg["cores"], fill, nb, nr),
                               sig=None, cfg=_cfg_str(cfg), layout=str(r0.layout))
+                out.trace = _trace(rv)
                 return out
         else:
             out.stats["probe:variant_changed_layout"] += 1
@@ -259,8 +269,7 @@ def case(ch):
             sigma = 2.0 ** content["sigma_pow"]
             db = float(np.nanmax(np.abs(r2.bkg.astype(np.float64) - r0.bkg.astype(np.float64))))
             dr = float(np.nanmax(np.abs(r2.rms.astype(np.float64) - r0.rms.astype(np.float64))))
-            out.stats["max_layout_delta_milli_sigma"] = max(out.stats["max_layout_delta_milli_sigma"],
-                                                           int(1000 * max(db, dr) / sigma))
+            out.maximum("layout_delta_in_sigma(threshold %.2f)" % SIGMA_FRACTION, max(db, dr) / sigma)
             if not (db <= SIGMA_FRACTION * sigma and dr <= SIGMA_FRACTION * sigma):
                 out.violation("stripe-sensitivity",
                               "layouts %s and %s of the same image (noise rms %g, offset 2^%s) give maps that differ "
@@ -303,6 +312,7 @@ def case(ch):
                                   % (tname, "raised an exception" if fault_kind == "exc" else "died", site, probs[0][1]),
                                   sig=fault_kind, fault_kind=fault_kind, site=site, cfg=_cfg_str(cfg),
                                   layout=str(rf.layout), sched=sched["profile"])
+                    out.trace = _trace(rf)
                     return out
                 if rf.status == "returned":
                     out.violation("fault-swallowed",
